@@ -36,7 +36,7 @@ def main():
             assert r.returncode == 0
             outcome = {}
             for chk in mu['checks']:
-                env = dict(os.environ, DSIM_REPO=d, DSIM_SHRINK_S='10')
+                env = dict(os.environ, DSIM_REPO=d, DSIM_SHRINK_S='10', DSIM_EVIDENCE_DIR=os.path.join(d, 'evidence'))
                 if chk in ('C37', 'C38'):
                     env['DSIM_NUMPY'] = '1'
                 p = subprocess.run([sys.executable, os.path.join(HERE, 'check.py'), chk, '--tier', 'quick'],
